@@ -20,7 +20,8 @@ ID = "C22"
 LEVEL = "exploration"
 RULE = ("cases = (lattice, mesh, ordering family); families: id, rev (reversed list), fortran (first index fastest), "
         "transp (every adjacent transposition of the list, all inside one case), irr (kptirr = even / odd positions, "
-        "on the identity and the reversed list); each ordering is one call of BKVectors.from_kpoints; non-trivial = "
+        "on the identity and the reversed list), digits8 (coordinates truncated / rounded to 8 decimals as in a "
+        "Wannier90 text file); each ordering is one call of BKVectors.from_kpoints; non-trivial = "
         "the search returned b-vectors (all four oracles applied) and, for families other than id, NK>1; "
         "(lattice, mesh) pairs where the search refuses are counted in no_solution and are not non-trivial")
 ASSUMPTIONS = [
@@ -29,8 +30,8 @@ ASSUMPTIONS = [
     "body-centred tetragonal and a sheared description of the cubic cell; all cells have |a| ~ 1 so that the code's "
     "absolute kmesh_tol=1e-7 is far below every distinct-length gap (near-ties between 1e-9 and 1e-5 relative are "
     "asserted absent and would be reported as ambiguous, not judged)",
-    "meshes up to 4x4x4 (quick) / 6x6x6 (thorough) plus anisotropic ones; k-points exactly i/n in [0,1); default "
-    "kmesh_tol, bk_complete_tol, search_supercell",
+    "meshes up to 4x4x4 (quick) / 6x6x6 (thorough) plus anisotropic ones; k-points exactly i/n in [0,1), or (family "
+    "digits8) truncated / rounded to 8 decimals; default kmesh_tol, bk_complete_tol, search_supercell",
     "a refusal of the shell search (RuntimeError 'Could not find a complete set') is not a violation of the "
     "statement; it is counted (no_solution) and listed in the evidence",
     "orderings: for NK>64 the transposition family is restricted to the first 64 adjacent pairs",
@@ -52,7 +53,7 @@ def lattices(tier):
         if tag != "1":
             L["tet_ca" + tag] = np.array([[1, 0, 0], [0, 1, 0], [0, 0, ca]])
     if tier != "quick":
-        ca, al = 1.0, np.deg2rad(70.0)
+        al = np.deg2rad(70.0)
         # rhombohedral, angle 70 degrees
         cx = np.cos(al)
         cy = (np.cos(al) - cx * np.cos(al)) / np.sin(al)
@@ -69,7 +70,7 @@ def meshes(tier):
     return m
 
 
-KINDS = ("id", "rev", "fortran", "transp", "irr")
+KINDS = ("id", "rev", "fortran", "transp", "irr", "digits8")
 
 
 def cases(tier, seed):
@@ -88,11 +89,15 @@ def grid_points(mesh):
 
 
 def orderings(kind, mesh):
-    """yield (name, permutation, kptirr)"""
+    """yield (name, permutation, kptirr); the name prefix 'digits8' asks for coordinates truncated / rounded to 8
+    decimals, as read from a Wannier90 text file (0.33333333)"""
     nk = int(np.prod(mesh))
     ident = list(range(nk))
     if kind == "id":
         yield "id", ident, None
+    elif kind == "digits8":
+        yield "digits8_trunc", ident, None
+        yield "digits8_round_rev", ident[::-1], None
     elif kind == "rev":
         yield "rev", ident[::-1], None
     elif kind == "fortran":
@@ -237,20 +242,23 @@ def run_case(case, seed):
     recip = 2 * np.pi * np.linalg.inv(A).T
     mp = np.array(mesh, dtype=int)
     pts = grid_points(mesh)
-    nk = len(pts)
     tag = f"lattice={lat} real_lattice={A.tolist()} mesh={list(mesh)}"
     obs = None
     norder = 0
     for name, perm, kptirr in orderings(kind, mesh):
         kint = pts[perm]
         kred = kint / mp[None, :]
+        if name.startswith("digits8_trunc"):
+            kred = np.floor(kred * 1e8) / 1e8
+        elif name.startswith("digits8_round"):
+            kred = np.round(kred, 8)
         try:
             bkv = BKVectors.from_kpoints(recip.copy(), mp.copy(), kred.copy(), kptirr=kptirr)
         except RuntimeError as e:
             if "Could not find a complete set" in str(e):
                 return {"ok": True, "nontrivial": False, "obs": {"no_solution": True}}
             if "Could not find a neighbour" in str(e):
-                return {"ok": False, "key": "neighbours:not_found", "nontrivial": False,
+                return {"ok": False, "key": "neighbours:not_found", "nontrivial": [[lat, list(mesh), kind]],
                         "detail": f"{tag} ordering={name}: {str(e)[:200]}"}
             raise
         norder += 1
@@ -258,19 +266,20 @@ def run_case(case, seed):
             fail, obs = check_shells(recip, mesh, np.asarray(bkv.wk), np.asarray(bkv.bk_cart), bkv.bk_grid)
             if fail:
                 fail["detail"] = f"{tag}: " + fail["detail"]
-                return {"ok": False, "nontrivial": False, **fail, "obs": obs}
+                return {"ok": False, "nontrivial": [[lat, list(mesh), kind]], **fail, "obs": obs}
             first = (np.array(bkv.wk), np.array(bkv.bk_grid))
         else:                 # ... but it must be the same for every ordering
             if not (np.array_equal(first[1], bkv.bk_grid) and np.array_equal(first[0], bkv.wk)):
-                return {"ok": False, "key": "shells:depend_on_k_ordering", "detail": f"{tag} ordering={name}"}
+                return {"ok": False, "key": "shells:depend_on_k_ordering", "detail": f"{tag} ordering={name}",
+                        "nontrivial": [[lat, list(mesh), kind]]}
         fail = check_neighbours(bkv, kint, mesh, kptirr, len(bkv.wk))
         if fail:
             fail["detail"] = f"{tag} ordering={name}: " + fail["detail"]
-            return {"ok": False, "nontrivial": False, **fail}
+            return {"ok": False, "nontrivial": [[lat, list(mesh), kind]], **fail}
     obs["orderings"] = norder
     if obs.get("ambiguous"):
         return {"ok": True, "nontrivial": False, "obs": obs}
-    return {"ok": True, "nontrivial": (lat, list(mesh), kind), "obs": obs}
+    return {"ok": True, "nontrivial": [[lat, list(mesh), kind]], "obs": obs}
 
 
 def finish(tier, cases, results):
